@@ -128,3 +128,68 @@ class SetInode(Base):
 
     def observe(self, c, a, out):
         return {'kind': out.kind, 'result': out.result, 'locs': [r.new_extent_loc for r in a.recs], 'ino': a.ino.new_extent_loc}
+
+
+@contract
+class CERemoveEntry(Base):
+    """C08/ce-alloc: remove_entry(offset, length) removes exactly the entry with that offset and length and keeps every other
+    entry (same objects, same order); it raises (internal error) exactly when no entry matches"""
+    target = BLK + '.remove_entry'
+    n = 3
+
+    def setup(self, c):
+        a = c.a
+        a.self = block(c, self.n)
+        a.before = list(a.self._entries)
+        a.o = c.int('offset', 0, 2048)
+        a.l = c.int('length', 0, 2048)
+        return Call([a.o, a.l], self_obj=a.self)
+
+    def matches(self, a):
+        return [And(o == a.o, l == a.l) for o, l in zip(a.offs, a.lens)]
+
+    def raises(self, c, a):
+        return {'PyCdlibInternalError': Not(Or(*self.matches(a))) if self.n else True}
+
+    def post(self, c, a, out):
+        ents = a.self._entries
+        cl = {'exactly-one-entry-removed': len(ents) == self.n - 1}
+        if len(ents) == self.n - 1:
+            gone = [e for e in a.before if not any(e is x for x in ents)]
+            cl['the-removed-entry-is-the-matching-one'] = len(gone) == 1 and And(gone[0]._offset == a.o, gone[0]._length == a.l)
+            cl['others-kept-in-order'] = all(x is y for x, y in zip([e for e in a.before if any(e is z for z in ents)], ents))
+        return cl
+
+    def observe(self, c, a, out):
+        return {'kind': out.kind, 'exc': out.exc, 'entries': [[e._offset, e._length] for e in a.self._entries]}
+
+
+@contract
+class CETrackEntry(Base):
+    """C08/ce-alloc (parse side): track_entry(offset, length) refuses (InvalidISO) exactly when the area shares a byte with a
+    tracked area or leaves the block; otherwise the list gains exactly that area and stays sorted and disjoint"""
+    target = BLK + '.track_entry'
+    n = 2
+
+    def setup(self, c):
+        a = c.a
+        a.self = block(c, self.n)
+        a.o = c.int('offset', 0, 4096)
+        a.l = c.int('length', 1, 4096)
+        return Call([a.o, a.l], self_obj=a.self)
+
+    def raises(self, c, a):
+        overlap = [Not(disjoint(a.o, a.l, o, l)) for o, l in zip(a.offs, a.lens)]
+        return {'PyCdlibInvalidISO': Or(a.o + a.l > a.max, *overlap)}
+
+    def post(self, c, a, out):
+        ents = a.self._entries
+        cl = {'one-entry-added': len(ents) == self.n + 1}
+        if len(ents) == self.n + 1:
+            cl['entries-sorted-disjoint-in-block'] = And(*[ents[i]._offset + ents[i]._length <= ents[i + 1]._offset for i in range(self.n)],
+                                                         ents[-1]._offset + ents[-1]._length <= a.max)
+            cl['new-entry-recorded'] = Or(*[And(e._offset == a.o, e._length == a.l) for e in ents])
+        return cl
+
+    def observe(self, c, a, out):
+        return {'kind': out.kind, 'exc': out.exc, 'entries': [[e._offset, e._length] for e in a.self._entries]}
